@@ -97,7 +97,10 @@ def stream_trace(tid, ops, lg, accel, outs=()):
             sr, dr = npuhw.region_name(regs["NPU_SET_DMA0_SRC_REGION"]), npuhw.region_name(regs["NPU_SET_DMA0_DST_REGION"])
             sa, da = regs["NPU_SET_DMA0_SRC"], regs["NPU_SET_DMA0_DST"]
             copies.append((sr, sa, dr, da, n))
-            evs.append(("dma", {"i": o["index"], "mode": c["mode"], "src": (sr, sa, n), "dst": (dr, da, n), "shift": sa - da,
+            # a feature-map copy moves the transfer length (rounded up to 16 bytes); only the bytes of the tensor itself have to be
+            # defined - the tail is padding of the allocation that nobody reads (NHWC tensors; bricks carry their padding inside)
+            nchk = min(n, c["in"].get("bytes", n)) if c["mode"] == "retag" and n - c["in"].get("bytes", n) in range(1, 16) else n
+            evs.append(("dma", {"i": o["index"], "mode": c["mode"], "src": (sr, sa, n), "dst": (dr, da, n), "shift": sa - da, "nchk": nchk,
                                 "insid": c["in"]["sid"], "indelta": -c["in"]["addr"], "outsid": c["out"]["sid"],
                                 "outdelta": -c["out"]["addr"], "name": c["name"]}))
             mech.add("dma_weights" if dr != npuhw.SHRAM and c["mode"] == "copy" else "dma_lut" if dr == npuhw.SHRAM else "dma_fm")
@@ -171,6 +174,8 @@ def stream_trace(tid, ops, lg, accel, outs=()):
         if k == "k":
             for s in p["rd"] + p["wr"]:
                 mark(s[1], s[2], s[3])
+        elif k == "dma" and p.get("nchk", p["src"][2]) != p["src"][2]:      # end of the tensor inside the transfer
+            mark(p["src"][0], p["src"][1], p["nchk"])
         elif k == "alias":                        # elided copy: no DMA registers, the extents of both tensors delimit cells
             mark(*p["src"])
             mark(*p["dst"])
@@ -186,6 +191,7 @@ def stream_trace(tid, ops, lg, accel, outs=()):
     for k, p in evs:
         if k == "dma":
             lines.append({"t": tid, "e": "Dma", "i": p["i"], "mode": p["mode"], "src": cl(*p["src"]), "dst": cl(*p["dst"]),
+                          "chk": cl(p["src"][0], p["src"][1], p.get("nchk", p["src"][2])),
                           "shift": p["shift"], "insid": p["insid"], "indelta": p["indelta"], "outsid": p["outsid"],
                           "outdelta": p["outdelta"]})
         elif k == "alias":
